@@ -438,6 +438,17 @@ func (act *activation) fixpoint(start *alt) *result {
 					gs = append(gs, groupKeyOf(act.e, b, x))
 				}
 				fmt.Printf("LOOP %s block %d pass %d record=%v in=%d groups=%v\n", load.FuncKey(fn), b.Index, passNo, record, len(in), gs)
+				if w := os.Getenv("VERIF_WATCH"); w != "" {
+					for i, x := range in {
+						n := 0
+						for _, at := range x.atoms {
+							if strings.Contains(act.e.T.String(at), w) {
+								n++
+							}
+						}
+						fmt.Printf("   alt %d: %d atoms, %d mention %q\n", i, len(x.atoms), n, w)
+					}
+				}
 			}
 			key := altsKey(act.e, in)
 			if !record {
